@@ -426,3 +426,32 @@ WUri = _wild_model("WUri", NS_B)
 WTwo = _wild_model("WTwo", "##local urn:b")
 WILD_MODES = [WAny, WOther, WLocal, WTarget, WUri, WTwo]
 ALL_MODELS.extend(WILD_MODES)
+
+
+# --------------------------------------------------------------------------- nested / inner classes and enums (C18)
+@dataclass
+class Outer:
+    class Shade(Enum):
+        DARK = "dark"
+        LIGHT = "light"
+
+    @dataclass
+    class Inner:
+        v: int = field(default=0, metadata={"type": "Attribute"})
+        words: Tuple[str, ...] = field(default_factory=tuple, metadata={"type": "Element"})
+
+    inner: Optional["Outer.Inner"] = field(default=None, metadata={"type": "Element"})
+    inners: List["Outer.Inner"] = field(default_factory=list, metadata={"type": "Element"})
+    shade: Optional["Outer.Shade"] = field(default=None, metadata={"type": "Attribute"})
+    shades: List["Outer.Shade"] = field(default_factory=list, metadata={"type": "Element"})
+    color: Color = field(default=Color.RED, metadata={"type": "Element"})
+
+
+@dataclass
+class Bag:
+    """Untyped holder for value-kind coverage of the code serializer."""
+
+    v: object = field(default=None, metadata={"type": "Element"})
+    vs: List[object] = field(default_factory=list, metadata={"type": "Element"})
+    m: Dict[str, object] = field(default_factory=dict, metadata={"type": "Attributes"})
+    fz: frozenset = field(default_factory=frozenset, metadata={"type": "Ignore"})
